@@ -17,7 +17,7 @@ RULE = ('Hypothesis-generated World histories (create/add/replace/remove/delete/
         'listeners once. '
         'A small share of the histories is AMPLIFIED (one operation, each operation or the whole history repeated 70-1100 times; a long disabled period is released and judged at the end). '
         ''
-        'Further generator dimensions: classes defined in the middle of the history, handlers whose __events__ mapping lives on the instance, lean classes that define only the callbacks they declare (the others do not exist as methods). What a class declares is computed from the generated spec (first ancestor in lookup order, extended and overridden by its own decoration), never read back from __events__. '
+        'In half of the cases ANOTHER world lives next to the one under test, disabled, with one handler component whose on_add is postponed there: it stays postponed whatever happens to the world under test, and is delivered exactly once, with its own entity and world, when that world is enabled at the end. Further generator dimensions: classes defined in the middle of the history, handlers whose __events__ mapping lives on the instance, lean classes that define only the callbacks they declare (the others do not exist as methods). What a class declares is computed from the generated spec (first ancestor in lookup order, extended and overridden by its own decoration), never read back from __events__. '
         'Non-trivial = a handler component detached by replacement, immediate deletion or '
         'clear, or a lifecycle callback postponed across a disable/enable cycle, or reuse after clear. '
         'Distinct = sha1 of canonical JSON.')
